@@ -46,3 +46,24 @@ def declare(spec):
         loop_invariants={0: [
             "forall_int(lambda j: implies(0 <= j and j < _i, forall_in(_it[j], lambda i: i.server)), trigger=lambda j: _it[j])"]},
         props=["C05", "C08"])
+
+    # ------------------------------------------------------------------------------------------------
+    # next-event bookkeeping
+    ORDER = ["slotted_service", "shift_change", "end_service", "class_change", "renege"]
+    M["pne"] = "lambda n, k: n.possible_next_events.get(k, (None, float('inf')))"
+    M["pdate"] = "lambda n, k: n.possible_next_events.get(k, (None, float('inf')))[1]"
+    ens = []
+    for k in ORDER:
+        ens.append((f"C02:minimal-{k}", f"result[0][1] <= pdate(self, '{k}')"))
+        ens.append((f"C02:chosen-{k}", f"implies(result[1] == '{k}', ref_eq(result[0], pne(self, '{k}')))"))
+    for a in range(len(ORDER)):
+        for b in range(a + 1, len(ORDER)):
+            ens.append((f"C12+C13:tie-{ORDER[a]}-before-{ORDER[b]}",
+                        f"implies(result[1] == '{ORDER[b]}', pdate(self, '{ORDER[a]}') > pdate(self, '{ORDER[b]}'))"))
+    ens.append(("none-iff-nothing-scheduled",
+                "(result[1] is None) == (" + " and ".join(f"isinf(pdate(self, '{k}'))" for k in ORDER) + ")"))
+    ens.append(("type-is-one-of-five", "result[1] is None or " + " or ".join(f"result[1] == '{k}'" for k in ORDER)))
+    add(spec, "Node.decide_next_event",
+        requires=["has(self, 'possible_next_events')"],
+        returns="tup2:(tup2:val,num),(opt:str)", modifies=[], allocates=True,
+        ensures=ens, props=["C02", "C12", "C13"])
